@@ -315,6 +315,9 @@ impl Database {
         let pager = self.pager.clone();
         // Begin a recovery transaction
         self.task_runner.run(move |ctx| {
+            // Replaying the log must not append to it: a crash during recovery would otherwise leave
+            // the replayed operations in the log as an unfinished transaction of their own.
+            logger.mute();
             let mut recuperator = WalRecuperator::new(child, logger.clone());
 
             // Run analysis INSIDE the closure using the cloned pager
